@@ -55,6 +55,12 @@ def run_target(t, foreign=None, rng=None):
             for k in range(t["nrows"]):
                 s.add_row(); outs.append(numpy.array(s.scrn, copy=True)); gap(2 + k)
                 _ = s.scrn; _ = repr(s)
+            if t.get("reinit"):
+                # the public make_initial_screen() called again on the same object: same seed and parameters, so the same
+                # initial screen and the same following rows
+                s.make_initial_screen(); outs.append(numpy.array(s.scrn, copy=True)); gap(50)
+                for k in range(t["nrows"]):
+                    s.add_row(); outs.append(numpy.array(s.scrn, copy=True)); gap(51 + k)
     return outs
 
 
@@ -164,6 +170,12 @@ def property_checks(inp):
         t2 = copy.deepcopy(t); t2["par"]["r0"] *= fr0; t2["par"]["ps"] *= fps; t2["seed"] = 99
         run_target(t2)
         A(("independent of an instance with another %s created before (%s target)" % (what, t["kind"]), 0.0 if bits_same(ref, run_target(t)) else 1.0, 0.0))
+    if t["kind"] in ("vk", "fried"):
+        t4 = copy.deepcopy(t); t4["reinit"] = True
+        both = run_target(t4, foreign=Foreign(common.Rng(inp["foreign_seed"] + 1)))
+        h = len(both) // 2
+        A(("make_initial_screen() called again on a seeded object re-makes the same initial screen and the same rows (%s target)" % t["kind"],
+           0.0 if (bits_same(both[:h], both[h:]) and bits_same(both[:h], ref)) else 1.0, 0.0))
     # different seeds differ, unseeded calls differ
     t3 = copy.deepcopy(t); t3["seed"] = 424242 if t["seed"] != 424242 else 7
     other = run_target(t3)
